@@ -150,7 +150,13 @@ def mk_universe(u):
         # the same instants as standard-library datetime objects (time-zone aware)
         when0 = when
         when = lambda i, e: when0(i, e).to_pydatetime()
-    return DynamicUniverse(dict((a, (missing if e is None else when(i, e))) for i, (a, e) in enumerate(u[1])))
+    real = dict((a, (missing if e is None else when(i, e))) for i, (a, e) in enumerate(u[1]))
+    if 'latemap' in flags:
+        # built on a provisional map (nobody listed yet); the public asset_dates attribute is given the real map afterwards
+        uni = DynamicUniverse(dict((a, None) for a in real))
+        uni.asset_dates = real
+        return uni
+    return DynamicUniverse(real)
 
 
 def write_csvs(d, assets):
@@ -188,6 +194,7 @@ def csv_handler(m, universe, keep=None, share_handler=False):
 
 
 LAST = {}
+EXTRA_EQUITY = 65536.0
 
 
 def run_session(c, shared_ds=None, reuse_universe=False, reuse_signals=False):
@@ -221,14 +228,23 @@ def run_session(c, shared_ds=None, reuse_universe=False, reuse_signals=False):
         tracked_signal[0] = sigs['momentum']
         if cfg['alpha'][0] == 'volfilter':
             sigs['vol'] = VolatilitySignal(start, universe, list(lbs))
-        signals = SignalsCollection(sigs, dh)
+        if cfg.get('late_signals') and len(sigs) > 1:
+            # the collection is built on a mapping that holds one signal; the others are put into the same mapping afterwards
+            registry = dict(list(sigs.items())[:1])
+            signals = SignalsCollection(registry, dh)
+            for k_, v_ in list(sigs.items())[1:]:
+                registry[k_] = v_
+        else:
+            signals = SignalsCollection(sigs, dh)
         if reuse_signals and 'signals' in LAST:
             # the SignalsCollection OBJECT (and its signals) of the previous session serves this one too
             signals, tracked_signal[0] = LAST['signals']
         LAST['signals'] = (signals, tracked_signal[0])
     a = cfg['alpha']
     if a[0] == 'fixed':
-        alpha = FixedSignalsAlphaModel(dict((k, v) for k, v in a[1]))
+        # the constructor's documented `universe` option is stored and not used by the model: passing it must change nothing
+        alpha = (FixedSignalsAlphaModel(dict((k, v) for k, v in a[1]), universe=universe) if cfg.get('alpha_universe')
+                 else FixedSignalsAlphaModel(dict((k, v) for k, v in a[1])))
     elif a[0] == 'single':
         alpha = SingleSignalAlphaModel(universe, signal=a[1])
     elif a[0] == 'timed':
@@ -264,6 +280,11 @@ def run_session(c, shared_ds=None, reuse_universe=False, reuse_signals=False):
                                       rebalance=rebalance, long_only=cfg['long_only'], fee_model=mk_fee(cfg['fee']),
                                       burn_in_dt=(None if cfg.get('burn') is None else ts(cfg['burn'])),
                                       data_handler=dh, **kw)
+        if cfg.get('extra_portfolio'):
+            # the account also holds a second, idle sub-portfolio with cash of its own (the equity curve is the ACCOUNT's equity)
+            sess.broker.subscribe_funds_to_account(EXTRA_EQUITY)
+            sess.broker.create_portfolio('000002', 'idle')
+            sess.broker.subscribe_funds_to_portfolio('000002', EXTRA_EQUITY)
     except Exception as e:
         return {'init': errname(e)}, ds
     finally:
@@ -311,7 +332,8 @@ def run_session(c, shared_ds=None, reuse_universe=False, reuse_signals=False):
     out['update_times'] = updates
     out['signal_obs'] = sig_obs
     out['warmup'] = (signals.warmup if signals is not None else None)
-    out['equity'] = [[sec(t), num(v)] for t, v in sess.equity_curve]
+    xe = EXTRA_EQUITY if cfg.get('extra_portfolio') else 0.0
+    out['equity'] = [[sec(t), num(v - xe)] for t, v in sess.equity_curve]         # (less the idle sub-portfolio's cash)
     out['allocs'] = [[sec(r_['Date']), [[k, num(v)] for k, v in r_.items() if k != 'Date']] for r_ in sess.target_allocations]
     pf = sess.broker.portfolios[sess.portfolio_id]
     out['history'] = [event_snap(e) for e in pf.history]
